@@ -26,6 +26,9 @@ THEOREMS = {
     "MG.Proofs.C01": [
         "MG.C01.backward_sound",
     ],
+    "MG.Proofs.Lemmas.InPlaceView": [
+        "MG.C04V.inplace_through_view_refines_numpy",
+    ],
     "MG.Proofs.Lemmas.InPlaceRefine": [
         "MG.C04R.inplace_on_owner_refines_numpy_general",
         "MG.C04R.inplace_on_owner_refines_numpy",
